@@ -97,6 +97,8 @@ def check(ctx):
             bad is None, bad[1] if bad else "")
     if bad:
         ppx.report(ctx, "C09", "recursion bound", bad[0], bad[1])
+    from props.c08 import growth_known
+    growth_known(ctx, "C09")
 
 
 def replay(ctx, path):
